@@ -284,21 +284,34 @@ pub fn check_hist(ctx: &Ctx, pool: &Pool, hist: &[Rec]) -> Check {
 
 pub fn e2e_scenario(hist: &[Rec]) -> crate::e2e::Scenario {
     let mut seen = BTreeSet::new();
-    let sends = hist
-        .iter()
-        .map(frame_of)
-        .filter(|f| seen.insert(f.clone()))
-        .enumerate()
-        .map(|(i, frame)| crate::e2e::Send { source: 0, frame, pause_ms: [0u32, 1, 3, 0, 12][i % 5], cut: if i % 5 == 2 { 7 + i % 9 } else { 0 }, clock_offset_s: None })
-        .collect();
-    crate::e2e::Scenario { references: vec![Some((43.6, 1.45))], sends, df_filter: None, aircraft_filter: None, dedup_ms: 40, update_position: false, with_file: false, via_config: false, split: 0, long_table: false, history_expire: None, track: vec![] }
+    let mut sends: Vec<crate::e2e::Send> = vec![];
+    for (i, frame) in hist.iter().map(frame_of).filter(|f| seen.insert(f.clone())).enumerate() {
+        // one frame in six is received twice in a row (inside the window the copies are merged into one record)
+        if i % 6 == 4 {
+            sends.push(crate::e2e::Send { source: 0, frame: frame.clone(), pause_ms: 0, cut: 0, clock_offset_s: None });
+        }
+        sends.push(crate::e2e::Send { source: 0, frame, pause_ms: [0u32, 1, 3, 0, 12][i % 5], cut: if i % 5 == 2 { 7 + i % 9 } else { 0 }, clock_offset_s: None });
+    }
+    // the table is independent of what is selected for output and of how much history is kept: a third of the scenarios
+    // run with an output filter (on the first aircraft / on ADS-B only), a third keep no history
+    let v = h64(&hist.iter().map(|r| (r.ac, r.kind, r.val)).collect::<Vec<_>>());
+    let (df_filter, aircraft_filter) = match v % 6 {
+        0 => (Some(vec![17u16]), None),
+        1 => (None, Some(vec![addr_of(hist.first().map(|r| r.ac).unwrap_or(0))])),
+        _ => (None, None),
+    };
+    let history_expire = [None, Some(0u64), Some(5)][((v >> 8) % 3) as usize];
+    crate::e2e::Scenario { references: vec![Some((43.6, 1.45))], sends, df_filter, aircraft_filter, dedup_ms: 40, history_expire, ..Default::default() }
 }
 
 pub fn judge_e2e(ctx: &Ctx, sc: &crate::e2e::Scenario, out: &crate::e2e::Outcome, window: (u64, u64), rep: &Value) -> Check {
     let fail = |sig: &str, d: String| Failure::new(format!("c12:e2e:{sig}"), d, rep.clone());
     let marker = format!("{:06x}", crate::e2e::MARKER_ADDR);
-    // what was sent, per displayed address
+    let filtered = sc.df_filter.is_some() || sc.aircraft_filter.is_some();
+    // what was sent, per displayed address: receptions, and distinct frames
+    let mut receptions: BTreeMap<String, u64> = BTreeMap::new();
     let mut sent: BTreeMap<String, u64> = BTreeMap::new();
+    let mut distinct = BTreeSet::new();
     for s in &sc.sends {
         if let Ok(m) = Message::try_from(s.frame.as_slice()) {
             if matches!(m.df, DF::ExtendedSquitterMilitary { .. } | DF::CommDExtended { .. }) {
@@ -306,15 +319,20 @@ pub fn judge_e2e(ctx: &Ctx, sc: &crate::e2e::Scenario, out: &crate::e2e::Outcome
             }
             let js = serde_json::to_value(&m).map_err(|e| fail("json", e.to_string()))?;
             if let Some(k) = js["icao24"].as_str() {
-                *sent.entry(k.to_string()).or_insert(0) += 1;
+                *receptions.entry(k.to_string()).or_insert(0) += 1;
+                if distinct.insert(s.frame.clone()) {
+                    *sent.entry(k.to_string()).or_insert(0) += 1;
+                }
             }
         }
     }
     // what each aircraft's emitted records show
     let mut shown: BTreeMap<String, BTreeSet<String>> = BTreeMap::new();
+    let mut printed: BTreeMap<String, u64> = BTreeMap::new();
     for l in &out.lines {
         let mut v: Value = serde_json::from_str(l).map_err(|e| fail("malformed-line", format!("{e}: {l}")))?;
         let Some(k) = v["icao24"].as_str().map(|s| s.to_string()) else { continue };
+        *printed.entry(k.clone()).or_insert(0) += 1;
         if let Value::Object(m) = &mut v {
             for key in ["timestamp", "frame", "metadata"] {
                 m.remove(key);
@@ -353,14 +371,23 @@ pub fn judge_e2e(ctx: &Ctx, sc: &crate::e2e::Scenario, out: &crate::e2e::Outcome
         if k == marker {
             continue;
         }
-        if e["count"].as_u64() != sent.get(&k).copied() {
-            return Err(fail("wrong-count", format!("{k}: count {} but {} distinct records of that aircraft were sent", e["count"], sent[&k])));
+        // one count per record: at least the distinct frames, at most the receptions (copies inside the window are one
+        // record), and - when nothing is filtered out of the output - exactly the records that were printed
+        let c = e["count"].as_u64().unwrap_or(0);
+        if c < sent[&k] || c > receptions[&k] {
+            return Err(fail("wrong-count", format!("{k}: count {c}, but {} distinct frames in {} receptions of that aircraft were sent", sent[&k], receptions[&k])));
+        }
+        if !filtered && Some(c) != printed.get(&k).copied() {
+            return Err(fail("count-differs-from-records", format!("{k}: count {c}, but jet1090 printed {} records of that aircraft", printed.get(&k).copied().unwrap_or(0))));
         }
         let (f, l) = (e["firstseen"].as_u64().unwrap_or(0), e["lastseen"].as_u64().unwrap_or(0));
         if !(window.0 <= f && f <= l && l <= window.1) {
             return Err(fail("wrong-seen-times", format!("{k}: firstseen {f}, lastseen {l}; the scenario ran between {} and {}", window.0, window.1)));
         }
         let own = shown.get(&k).cloned().unwrap_or_default();
+        if filtered {
+            continue; // the printed records are not all the records
+        }
         for key in PROVENANCE_KEYS {
             let v = &e[key];
             if v.is_null() {
